@@ -223,7 +223,7 @@ class Interp:
         return self.builtin_name(name)
 
     LIB_FUNCS = {"binascii.hexlify", "binascii.unhexlify", "binascii.b2a_hex", "binascii.a2b_hex", "hashlib.sha256", "math.ceil", "os.urandom",
-                 "json.dumps", "json.loads", "itertools.count"}
+                 "json.dumps", "json.loads", "itertools.count", "operator.index"}
 
     def library_name(self, full):
         if full in self.LIB_FUNCS:
@@ -444,7 +444,8 @@ class Interp:
         ctx = self.ctx
         # concrete fast path
         if not is_sym(a) and not is_sym(b) and not isinstance(a, (SObj, list, tuple)) \
-                and isinstance(a, (int, bytes, str, float)) and isinstance(b, (int, bytes, str, float, tuple)):
+                and isinstance(a, (int, bytes, str, float)) and isinstance(b, (int, bytes, str, float, tuple)) \
+                and not (isinstance(b, tuple) and any(not isinstance(x, (int, bytes, str, float)) for x in b)):
             try:
                 return self.concrete_binop(op, a, b)
             except ZeroDivisionError:
@@ -572,6 +573,16 @@ class Interp:
 
     def str_format(self, fmt, arg):
         """ '<fmt>' % arg   for the formats %0<N>x / %x / %02x with an int argument."""
+        if isinstance(arg, tuple) and len(arg) == 2 and fmt == "%0*x" and isintlike(arg[0]) and isintlike(arg[1]):
+            # "%0*x" % (w, n): the width taken from the argument list; same text as ("%0" + str(w) + "x") % n for w >= 1
+            w = arg[0]
+            if isinstance(w, int):
+                if w < 1:
+                    raise Unsupported("format width may be < 1")
+                return SStr(sym.HEXFMT(w, I(arg[1])))
+            if self.ctx.check([I(w) < 1]) != z3.unsat:
+                raise Unsupported("format width may be < 1")
+            return SStr(sym.HEXFMT(I(w), I(arg[1])))
         if isinstance(arg, tuple):
             if len(arg) != 1:
                 raise Unsupported("format with tuple")
